@@ -1,40 +1,52 @@
 #!/venv/bin/python
 """Run each stored seeded change (already validated by seed_eval.py) against its property's check.
-The patch is applied to the scratch worktree /tmp/val (never to /repo) and reverted afterwards.
-usage: seed_matrix.py [seed-id-prefix ...]"""
-import json, os, subprocess, sys
-VAL = "/tmp/val"
+The patch is applied to a scratch copy of /repo's source (tempdir, removed afterwards), never to /repo.
+usage: seed_matrix.py [seed-id-prefix ...] [--jobs N]"""
+import io, json, os, shutil, subprocess, sys, tempfile, multiprocessing, contextlib
+sys.path.insert(0, os.path.dirname(os.path.dirname(os.path.abspath(__file__))))
 SEEDS = "/verif/seeded"
+ROOT = "/repo/src/main/python"
 
 
-def sh(c):
-  return subprocess.run(c, shell=True, capture_output=True, text=True)
+def one(sid):
+  from ttverif.__main__ import run_check
+  d = os.path.join(SEEDS, sid)
+  meta = json.load(open(os.path.join(d, "meta.json")))
+  prop = meta.get("property", sid.split("-")[0])
+  base = tempfile.mkdtemp(prefix="ttverif-seed-")
+  try:
+    root = os.path.join(base, "src", "main", "python")
+    shutil.copytree(ROOT, root, ignore=shutil.ignore_patterns("__pycache__"))
+    ap = subprocess.run(["git", "apply", "--include=src/main/python/*", os.path.join(d, "patch.diff")], cwd=base, capture_output=True, text=True)
+    if ap.returncode != 0:
+      return (sid, prop, "APPLY-FAILED", ap.stderr.strip()[:80])
+    buf = io.StringIO()
+    with contextlib.redirect_stdout(buf), contextlib.redirect_stderr(buf):
+      rc = run_check(prop, "quick", root)
+    out = buf.getvalue().splitlines()
+    fired = sorted({l.split("rule=")[1].split(" ")[0] for l in out if l.strip().startswith("violated:")})
+    err = [l for l in out if "ANALYSIS-ERROR" in l]
+    und = sum(1 for l in out if l.startswith("UNDECIDED"))
+    return (sid, prop, {0: "missed", 1: "caught", 2: "analysis-error"}.get(rc, str(rc)), (",".join(fired) or (err[0][:90] if err else "")) + (f"  [{und} undecided]" if und else ""))
+  finally:
+    shutil.rmtree(base, ignore_errors=True)
 
 
 def main():
-  pre = sys.argv[1:]
-  head = sh("git -C /repo rev-parse HEAD").stdout.strip()
-  sh(f"git -C {VAL} checkout -q -- . && git -C {VAL} checkout -q --detach {head}")
-  rows = []
-  for sid in sorted(x for x in os.listdir(SEEDS) if os.path.exists(os.path.join(SEEDS, x, "meta.json"))):
-    if pre and not any(sid.startswith(p) for p in pre):
-      continue
-    d = os.path.join(SEEDS, sid)
-    meta = json.load(open(os.path.join(d, "meta.json")))
-    prop = meta.get("property", sid.split("-")[0])
-    ap = sh(f"git -C {VAL} apply {d}/patch.diff")
-    if ap.returncode != 0:
-      rows.append((sid, prop, "APPLY-FAILED", ap.stderr.strip()[:80]))
-      continue
-    r = sh(f"cd /verif && /venv/bin/python -m ttverif check {prop} --root {VAL}/src/main/python")
-    fired = sorted({l.split("rule=")[1].split(" ")[0] for l in r.stdout.splitlines() if l.strip().startswith("violated:")})
-    err = [l for l in r.stdout.splitlines() if "ANALYSIS-ERROR" in l]
-    rows.append((sid, prop, {0: "missed", 1: "caught", 2: "analysis-error"}.get(r.returncode, str(r.returncode)), ",".join(fired) or (err[0][:90] if err else "")))
-    sh(f"git -C {VAL} checkout -q -- .")
+  argv = sys.argv[1:]
+  jobs = 16
+  if "--jobs" in argv:
+    i = argv.index("--jobs")
+    jobs = int(argv[i + 1])
+    del argv[i:i + 2]
+  ids = sorted(x for x in os.listdir(SEEDS) if os.path.exists(os.path.join(SEEDS, x, "meta.json")) and (not argv or any(x.startswith(p) for p in argv)))
+  with multiprocessing.Pool(min(jobs, max(1, len(ids)))) as pool:
+    rows = pool.map(one, ids, chunksize=1)
   for row in rows:
     print("%-8s %-4s %-15s %s" % row)
   c = sum(1 for r in rows if r[2] == "caught")
   print(f"{c}/{len(rows)} caught")
 
 
-main()
+if __name__ == "__main__":
+  main()
